@@ -4,3 +4,5 @@ import MimicProofs.Wire
 import MimicProofs.Results
 import MimicProofs.Params
 import MimicProofs.Auth
+import MimicProofs.Conn
+import MimicProofs.Script
